@@ -1900,7 +1900,9 @@ fuzzy_info = {json.dumps(ret)};
             graphLogger.critical("Cycle detected in graph: %s" % edges)
             outRef = edges[0][1]
             inRef = edges[-1][0]
-            raise experiment.model.errors.CircularComponentReferenceError(DataReference(outRef), DataReference(inRef))
+            # VV: the edges hold component identifiers (no reference method); build valid references to report them
+            raise experiment.model.errors.CircularComponentReferenceError(
+                DataReference('%s:ref' % outRef), DataReference('%s:ref' % inRef))
 
         unresolved = []
         unused = []
